@@ -4,6 +4,7 @@ package redis
 
 import (
 	"fmt"
+	"strings"
 
 	"github.com/samaritan-proxy/samaritan/verifrt/sched"
 	"github.com/samaritan-proxy/samaritan/verifrt/sim/cluster"
@@ -101,7 +102,7 @@ func c12reportedTableBody() {
 	if sched.Choose(sched.ClsInput, 2, "rotation of the random host picks") == 1 {
 		vrand.Intn(2)
 	}
-	hist := []string{"suspected-from-start", "owner-changes-address", "suspected-later", "listed-with-nofailover"}[sched.Choose(sched.ClsInput, 4, "history")]
+	hist := []string{"suspected-from-start", "owner-changes-address", "suspected-later", "listed-with-nofailover", "owner-reports-clusterdown"}[sched.Choose(sched.ClsInput, 5, "history")]
 	cl := cluster.New(2, 0, 4)
 	m0, m1 := cl.Masters()[0], cl.Masters()[1]
 	if hist == "suspected-from-start" {
@@ -136,8 +137,21 @@ func c12reportedTableBody() {
 		for _, k := range keys {
 			for _, args := range [][]string{{"SET", k, "v"}, {"GET", k}} {
 				mark := len(cl.Log)
+				if hist == "owner-reports-clusterdown" && round == 0 {
+					// the owner refuses this command once with -CLUSTERDOWN (it lost sight of the majority for a moment):
+					// an error reply is fine, sending the key anywhere else is not
+					cl.OwnerOfKey(k).RefuseOnce = map[string][]byte{strings.ToLower(args[0]): []byte("-CLUSTERDOWN The cluster is down\r\n")}
+				}
 				v, err := c.Do(args...)
 				sched.WaitQuiescent()
+				if hist == "owner-reports-clusterdown" && round == 0 && err == nil && v.Kind == '-' {
+					if r := cl.Redirects(mark); r > 0 {
+						sched.Fail("key-sent-to-a-node-that-answers-MOVED / "+hist, fmt.Sprintf("%v (owner %s): %d redirection(s)", args, cl.OwnerOfKey(k).ID, r))
+						return
+					}
+					s.RefreshRound()
+					continue
+				}
 				want := refExec(s.ref, args)
 				if err != nil || !resp.Equal(v, want) {
 					sched.Fail("wrong-reply / "+hist, fmt.Sprintf("%v: proxy replied %s (%v), a single server replies %s", args, v, err, want))
